@@ -1,24 +1,1292 @@
-//! C08 — not implemented yet (stub so that the registry compiles).
+//! C08 — macros play exactly their key list, in order, one step per millisecond with at least the
+//! stated delays, and always end with every key released (also after cancellation); a repeating
+//! macro restarts only while its key is held.
+//!
+//! Oracle: the generator keeps its own macro-body AST (keys, delays, `S-(…)` groups, output chords,
+//! nested lists, one `(unicode λ)`), renders it into every macro variant and expands it with an
+//! independent expander into the expected step list. The OS stream (redundant releases dropped) is
+//! projected onto the macro's private key alphabet and matched against that list.
 
+use crate::core::rng::Rng;
+use crate::core::sim::{code_name, osc, render_hist, Ev, OutKind, Sim};
 use crate::core::{CaseOut, Check, Ctx};
+use serde_json::{json, Value};
+use std::collections::BTreeSet;
 
 pub struct C08Check;
 pub static C08: C08Check = C08Check;
+
+// ------------------------------------------------------------------------------------------------
+// macro body AST, renderer, independent expander
+
+#[derive(Clone, Debug)]
+enum Item {
+    Key(String),
+    Delay(u32),
+    /// output chord `C-S-a`: modifiers pressed in order, key tapped, modifiers released in reverse
+    Chord(Vec<String>, String),
+    /// `C-S-(…)`; the bool selects the alternative spelling `C-S- (…)`
+    Group(Vec<String>, Vec<Item>, bool),
+    List(Vec<Item>),
+    Uni(char),
+}
+
+fn mod_prefix(m: &str, alt: bool) -> &'static str {
+    match m {
+        "lsft" => "S-",
+        "rsft" => "RS-",
+        "lctl" => "C-",
+        "rctl" => "RC-",
+        "lalt" => "A-",
+        "ralt" => {
+            if alt {
+                "AG-"
+            } else {
+                "RA-"
+            }
+        }
+        "lmet" => "M-",
+        _ => "RM-",
+    }
+}
+
+fn render_items(items: &[Item]) -> String {
+    let mut v = vec![];
+    for it in items {
+        v.push(match it {
+            Item::Key(k) => k.clone(),
+            Item::Delay(d) => d.to_string(),
+            Item::Chord(ms, k) => format!("{}{}", ms.iter().map(|m| mod_prefix(m, k.len() % 2 == 0)).collect::<String>(), k),
+            Item::Group(ms, inner, spaced) => format!(
+                "{}{}({})",
+                ms.iter().map(|m| mod_prefix(m, inner.len() % 2 == 0)).collect::<String>(),
+                if *spaced { " " } else { "" },
+                render_items(inner)
+            ),
+            Item::List(inner) => format!("({})", render_items(inner)),
+            Item::Uni(c) => format!("(unicode {c})"),
+        });
+    }
+    v.join(" ")
+}
+
+#[derive(Clone, Copy, Debug, PartialEq, Eq)]
+enum SK {
+    P,
+    R,
+    U,
+}
+
+#[derive(Clone, Debug, PartialEq, Eq)]
+struct XStep {
+    kind: SK,
+    /// name as the OS stream prints it
+    name: String,
+    /// sum of the delays written between the previous step and this one
+    min_gap: u32,
+    /// non-zero: this release belongs to the closing of a modifier group with several modifiers;
+    /// the guide does not say in which order a group's modifiers are released, so the releases of
+    /// one block may come in any order (still one per millisecond)
+    block: u32,
+}
+
+struct Expansion {
+    steps: Vec<XStep>,
+    trailing_delay: u32,
+    total_delay: u32,
+}
+
+/// Independent expander: what the body spells out, written from the configuration guide.
+fn expand(items: &[Item]) -> Expansion {
+    fn go(items: &[Item], out: &mut Vec<XStep>, pending: &mut u32, total: &mut u32, blocks: &mut u32) {
+        let push = |out: &mut Vec<XStep>, pending: &mut u32, kind: SK, name: &str| {
+            let name = if kind == SK::U { name.to_string() } else { code_name(osc(name)) };
+            out.push(XStep { kind, name, min_gap: *pending, block: 0 });
+            *pending = 0;
+        };
+        for it in items {
+            match it {
+                Item::Key(k) => {
+                    push(out, pending, SK::P, k);
+                    push(out, pending, SK::R, k);
+                }
+                Item::Delay(d) => {
+                    *pending += *d;
+                    *total += *d;
+                }
+                Item::Chord(ms, k) => {
+                    for m in ms {
+                        push(out, pending, SK::P, m);
+                    }
+                    push(out, pending, SK::P, k);
+                    push(out, pending, SK::R, k);
+                    for m in ms.iter().rev() {
+                        push(out, pending, SK::R, m);
+                    }
+                }
+                Item::Group(ms, inner, _) => {
+                    for m in ms {
+                        push(out, pending, SK::P, m);
+                    }
+                    go(inner, out, pending, total, blocks);
+                    let first = out.len();
+                    for m in ms.iter().rev() {
+                        push(out, pending, SK::R, m);
+                    }
+                    if ms.len() > 1 {
+                        *blocks += 1;
+                        for s in out[first..].iter_mut() {
+                            s.block = *blocks;
+                        }
+                    }
+                }
+                Item::List(inner) => go(inner, out, pending, total, blocks),
+                Item::Uni(c) => push(out, pending, SK::U, &c.to_string()),
+            }
+        }
+    }
+    let mut steps = vec![];
+    let mut pending = 0;
+    let mut total = 0;
+    let mut blocks = 0;
+    go(items, &mut steps, &mut pending, &mut total, &mut blocks);
+    Expansion { steps, trailing_delay: pending, total_delay: total }
+}
+
+struct BodyGen<'a> {
+    rng: &'a mut Rng,
+    letters: Vec<String>,
+    mods: Vec<String>,
+    held: Vec<String>,
+    uni: Option<char>,
+    uni_used: bool,
+    budget: i32,
+    delays: &'static [u32],
+}
+
+impl<'a> BodyGen<'a> {
+    fn free_mods(&mut self, max: usize) -> Vec<String> {
+        let mut free: Vec<String> = self.mods.iter().filter(|m| !self.held.contains(m)).cloned().collect();
+        self.rng.shuffle(&mut free);
+        let n = (1 + self.rng.usize(max)).min(free.len());
+        free.truncate(n);
+        free
+    }
+    fn items(&mut self, depth: u32, n: usize) -> Vec<Item> {
+        let mut v = vec![];
+        for _ in 0..n {
+            if self.budget <= 0 {
+                break;
+            }
+            let roll = self.rng.usize(100);
+            let item = if roll < 34 || depth >= 3 && roll < 55 {
+                self.budget -= 2;
+                if self.rng.chance(1, 10) && !self.mods.is_empty() {
+                    // a modifier tapped as a plain key (only if not held by an enclosing group)
+                    let f = self.free_mods(1);
+                    match f.first() {
+                        Some(m) => Item::Key(m.clone()),
+                        None => Item::Key(self.rng.pick(&self.letters).clone()),
+                    }
+                } else {
+                    Item::Key(self.rng.pick(&self.letters).clone())
+                }
+            } else if roll < 55 {
+                Item::Delay(*self.rng.pick(self.delays))
+            } else if roll < 70 {
+                let ms = self.free_mods(2);
+                if ms.is_empty() {
+                    Item::Key(self.rng.pick(&self.letters).clone())
+                } else {
+                    self.budget -= 2 + 2 * ms.len() as i32;
+                    Item::Chord(ms, self.rng.pick(&self.letters).clone())
+                }
+            } else if roll < 84 {
+                let ms = self.free_mods(2);
+                if ms.is_empty() {
+                    Item::Delay(*self.rng.pick(self.delays))
+                } else {
+                    self.budget -= 2 * ms.len() as i32;
+                    self.held.extend(ms.iter().cloned());
+                    let n_in = 1 + self.rng.usize(4);
+                    let mut inner = self.items(depth + 1, n_in);
+                    if inner.is_empty() {
+                        inner.push(Item::Key(self.rng.pick(&self.letters).clone()));
+                    }
+                    for _ in 0..ms.len() {
+                        self.held.pop();
+                    }
+                    Item::Group(ms, inner, self.rng.chance(1, 8))
+                }
+            } else if roll < 93 {
+                let n_in = 1 + self.rng.usize(3);
+                let inner = self.items(depth + 1, n_in);
+                if inner.is_empty() {
+                    Item::Delay(1)
+                } else {
+                    Item::List(inner)
+                }
+            } else if let (Some(c), false) = (self.uni, self.uni_used) {
+                self.uni_used = true;
+                self.budget -= 1;
+                Item::Uni(c)
+            } else {
+                Item::Delay(*self.rng.pick(self.delays))
+            };
+            v.push(item);
+        }
+        v
+    }
+}
+
+#[derive(Clone, Copy, Debug, PartialEq, Eq)]
+struct Variant {
+    name: &'static str,
+    repeat: bool,
+    /// releasing the key cancels
+    rc: bool,
+    /// pressing another key cancels
+    cp: bool,
+}
+
+const VARIANTS: &[Variant] = &[
+    Variant { name: "macro", repeat: false, rc: false, cp: false },
+    Variant { name: "macro-repeat", repeat: true, rc: false, cp: false },
+    Variant { name: "macro-release-cancel", repeat: false, rc: true, cp: false },
+    Variant { name: "macro-repeat-release-cancel", repeat: true, rc: true, cp: false },
+    Variant { name: "macro-cancel-on-press", repeat: false, rc: false, cp: true },
+    Variant { name: "macro-repeat-cancel-on-press", repeat: true, rc: false, cp: true },
+    Variant { name: "macro-release-cancel-and-cancel-on-press", repeat: false, rc: true, cp: true },
+    Variant { name: "macro-repeat-release-cancel-and-cancel-on-press", repeat: true, rc: true, cp: true },
+];
+
+struct Macro {
+    /// physical trigger key (config name) and its code
+    trigger: &'static str,
+    code: u16,
+    variant: Variant,
+    body: Vec<Item>,
+    exp: Expansion,
+    /// OS names of the macro's private alphabet
+    alphabet: BTreeSet<String>,
+    uni: Option<char>,
+}
+
+const TRIGGERS: &[&str] = &["1", "2", "3", "4", "5", "6", "7", "8"];
+const TYPED: &[&str] = &["9", "0", "-"];
+const CANCEL_KEY: &str = "=";
+const LETTERS: &[&str] = &[
+    "a", "b", "c", "d", "e", "f", "g", "h", "i", "j", "k", "l", "m", "n", "o", "p", "q", "r", "s", "t", "u", "v", "w", "x", "y", "z",
+];
+const MODS: &[&str] = &["lsft", "rsft", "lctl", "rctl", "lalt", "ralt", "lmet", "rmet"];
+const UNIS: &[char] = &['λ', 'ø', 'ж', 'π'];
+
+#[derive(Clone, Copy, Debug, PartialEq, Eq)]
+enum Family {
+    Single,
+    Cancel,
+    Repeat,
+    Concurrent,
+    Overflow,
+}
+
+fn family_of(idx: u64) -> Family {
+    match idx % 10 {
+        0 | 1 | 2 => Family::Single,
+        3 | 4 | 5 => Family::Cancel,
+        6 => Family::Repeat,
+        7 | 8 => Family::Concurrent,
+        _ => Family::Overflow,
+    }
+}
+
+struct CaseCfg {
+    family: Family,
+    macros: Vec<Macro>,
+    text: String,
+}
+
+fn make_cfg(ctx: &Ctx, idx: u64) -> CaseCfg {
+    let mut rng = Rng::for_case(ctx.seed, "C08", "cfg", idx);
+    let family = family_of(idx);
+    let n = match family {
+        Family::Single | Family::Cancel | Family::Repeat => 1,
+        Family::Concurrent => 2 + rng.usize(3),
+        Family::Overflow => 5 + rng.usize(4),
+    };
+    let mut letters: Vec<String> = LETTERS.iter().map(|s| s.to_string()).collect();
+    rng.shuffle(&mut letters);
+    let mut mods: Vec<String> = MODS.iter().map(|s| s.to_string()).collect();
+    rng.shuffle(&mut mods);
+    let (l_per, m_per) = match n {
+        1 => (6, 4),
+        2..=4 => (5, 2),
+        _ => (3, 2),
+    };
+    let mut macros = vec![];
+    for i in 0..n {
+        let my_letters: Vec<String> = letters.drain(..l_per).collect();
+        let my_mods: Vec<String> = if mods.len() >= m_per { mods.drain(..m_per).collect() } else { vec![] };
+        let variant = match family {
+            Family::Single => *rng.pick(VARIANTS),
+            Family::Cancel => {
+                // systematic over the variants that can be cancelled
+                let c: Vec<Variant> = VARIANTS.iter().copied().filter(|v| v.rc || v.cp || v.repeat).collect();
+                c[((idx / 10) as usize) % c.len()]
+            }
+            Family::Repeat => {
+                let c: Vec<Variant> = VARIANTS.iter().copied().filter(|v| v.repeat).collect();
+                c[((idx / 10) as usize) % c.len()]
+            }
+            Family::Concurrent => {
+                if rng.chance(1, 4) {
+                    VARIANTS[1]
+                } else {
+                    VARIANTS[0]
+                }
+            }
+            Family::Overflow => VARIANTS[0],
+        };
+        // only macro 0 carries a custom item: concurrent custom items share one delivery slot per
+        // tick, which the guide documents as needing delays
+        let uni = if i == 0 && rng.chance(1, 2) { Some(UNIS[rng.usize(UNIS.len())]) } else { None };
+        let budget = match family {
+            Family::Single => 4 + rng.usize(26) as i32,
+            Family::Cancel => 3 + rng.usize(16) as i32,
+            Family::Repeat => 2 + rng.usize(12) as i32,
+            Family::Concurrent => 6 + rng.usize(16) as i32,
+            Family::Overflow => 10 + rng.usize(10) as i32,
+        };
+        let delays: &'static [u32] = match family {
+            Family::Single => &[1, 1, 2, 3, 5, 10, 25, 60],
+            Family::Overflow => &[1, 2, 3, 5, 8],
+            _ => &[1, 1, 2, 3, 5, 12],
+        };
+        let mut body;
+        let mut tries = 0;
+        loop {
+            let mut g = BodyGen { rng: &mut rng, letters: my_letters.clone(), mods: my_mods.clone(), held: vec![], uni, uni_used: false, budget, delays };
+            let n_items = 1 + g.rng.usize(7);
+            body = g.items(0, n_items);
+            let e = expand(&body);
+            tries += 1;
+            let min_steps = if family == Family::Overflow { 10 } else { 1 };
+            let key_steps = |e: &Expansion| e.steps.iter().filter(|s| s.kind != SK::U).count();
+            if key_steps(&e) >= min_steps || tries > 20 {
+                if key_steps(&e) < min_steps {
+                    // pad with plain keys
+                    while key_steps(&expand(&body)) < min_steps {
+                        body.push(Item::Key(my_letters[body.len() % my_letters.len()].clone()));
+                        body.push(Item::Delay(2));
+                    }
+                }
+                break;
+            }
+        }
+        if variant.repeat && uni.is_some() {
+            // keep the custom item of one run away from the one of the next run
+            body.push(Item::Delay(5));
+        }
+        let exp = expand(&body);
+        let mut alphabet: BTreeSet<String> = BTreeSet::new();
+        for l in my_letters.iter().chain(my_mods.iter()) {
+            alphabet.insert(code_name(osc(l)));
+        }
+        macros.push(Macro { trigger: TRIGGERS[i], code: osc(TRIGGERS[i]), variant, body, exp, alphabet, uni });
+    }
+    let mut src = vec![];
+    let mut lay = vec![];
+    for m in &macros {
+        src.push(m.trigger.to_string());
+        lay.push(format!("({} {})", m.variant.name, render_items(&m.body)));
+    }
+    for t in TYPED.iter().chain([CANCEL_KEY].iter()) {
+        src.push(t.to_string());
+        lay.push(t.to_string());
+    }
+    let text = format!("(defsrc {})\n(deflayer l0\n  {}\n)\n", src.join(" "), lay.join("\n  "));
+    CaseCfg { family, macros, text }
+}
+
+// ------------------------------------------------------------------------------------------------
+// driver with history recording
+
+struct Drv {
+    sim: Sim,
+    hist: Vec<Ev>,
+}
+
+impl Drv {
+    fn new(cfg: &str) -> Result<Drv, String> {
+        Ok(Drv { sim: Sim::new(cfg)?, hist: vec![] })
+    }
+    fn tick(&mut self, n: u64) {
+        if n == 0 {
+            return;
+        }
+        self.sim.ticks(n);
+        if let Some(Ev::T(k)) = self.hist.last_mut() {
+            *k += n as u32;
+        } else {
+            self.hist.push(Ev::T(n as u32));
+        }
+    }
+    fn press(&mut self, c: u16) {
+        self.sim.press(c);
+        self.hist.push(Ev::P(c));
+    }
+    fn release(&mut self, c: u16) {
+        self.sim.release(c);
+        self.hist.push(Ev::R(c));
+    }
+    fn now(&self) -> u64 {
+        self.sim.now
+    }
+}
+
+#[derive(Clone, Debug)]
+struct Obs {
+    at: u64,
+    kind: SK,
+    name: String,
+}
+
+fn show_obs(o: &[Obs]) -> Vec<String> {
+    o.iter()
+        .map(|s| format!("{}{}@{}", match s.kind { SK::P => "↓", SK::R => "↑", SK::U => "U:" }, s.name, s.at))
+        .collect()
+}
+fn show_exp(e: &[XStep]) -> Vec<String> {
+    e.iter()
+        .map(|s| format!("{}{}{}{}", if s.min_gap > 0 { format!("[{}] ", s.min_gap) } else { String::new() }, match s.kind { SK::P => "↓", SK::R => "↑", SK::U => "U:" }, s.name, if s.block != 0 { "~" } else { "" }))
+        .collect()
+}
+
+/// project the OS stream (from trace index `from`) onto one macro's alphabet
+fn project(sim: &Sim, from: usize, m: &Macro, with_uni: bool) -> Vec<Obs> {
+    let mut v = vec![];
+    for o in &sim.trace[from..] {
+        if o.redundant {
+            continue;
+        }
+        match o.kind {
+            OutKind::Down if m.alphabet.contains(&o.name) => v.push(Obs { at: o.at, kind: SK::P, name: o.name.clone() }),
+            OutKind::Up if m.alphabet.contains(&o.name) => v.push(Obs { at: o.at, kind: SK::R, name: o.name.clone() }),
+            OutKind::Unicode if with_uni && m.uni.map(|c| c.to_string() == o.name).unwrap_or(false) => v.push(Obs { at: o.at, kind: SK::U, name: o.name.clone() }),
+            _ => {}
+        }
+    }
+    v
+}
+
+/// The best reading of an observed projection against the expected step list played cyclically.
+#[derive(Clone, Debug, Default)]
+struct Reading {
+    /// observed steps explained as regular macro steps
+    head: usize,
+    /// complete runs inside the head
+    runs: usize,
+    /// steps of a partial run after the complete ones
+    k: usize,
+    /// number of trailing observed steps explained as clean-up releases of open keys
+    tail: usize,
+    /// keys pressed by the head and never released (neither by a step nor by the clean-up)
+    open: Vec<String>,
+    /// tick of the first step of every run
+    run_starts: Vec<u64>,
+    /// tick of the last regular step
+    last_step_at: Option<u64>,
+    /// first problem that prevented a longer reading
+    problem: Option<(String, String)>,
+    /// observed steps that no reading explains
+    unexplained: usize,
+}
+
+fn read_projection(obs: &[Obs], exp: &[XStep], trailing: u32, start_tick: u64) -> Reading {
+    // greedy head: longest prefix of obs matching exp cyclically with timing rules
+    // heads[j] = Some(problem) if obs[..j] is not a clean head
+    let n = exp.len();
+    let mut best = Reading::default();
+    if n == 0 {
+        best.unexplained = obs.len();
+        return best;
+    }
+    // walk once, remembering the state after each head length
+    struct St {
+        open: Vec<String>,
+        runs: usize,
+        k: usize,
+        run_starts: Vec<u64>,
+        last: Option<u64>,
+        /// names already released inside the current unordered block
+        used: Vec<String>,
+    }
+    let mut states: Vec<St> = vec![St { open: vec![], runs: 0, k: 0, run_starts: vec![], last: None, used: vec![] }];
+    let mut problem: Option<(String, String)> = None;
+    for (j, o) in obs.iter().enumerate() {
+        let prev = states.last().unwrap();
+        let e = &exp[prev.k];
+        let mut used = prev.used.clone();
+        let matches = if e.block != 0 {
+            // any not yet released modifier of this block
+            let ok = o.kind == SK::R && !used.contains(&o.name) && exp.iter().any(|x| x.block == e.block && x.name == o.name);
+            used.push(o.name.clone());
+            if prev.k + 1 >= n || exp[prev.k + 1].block != e.block {
+                used.clear();
+            }
+            ok
+        } else {
+            o.kind == e.kind && o.name == e.name
+        };
+        if !matches {
+            problem = Some(("order".into(), format!("observed step #{j} {} where the body spells {}", show_obs(std::slice::from_ref(o))[0], show_exp(std::slice::from_ref(e))[0])));
+            break;
+        }
+        let prev_tick = prev.last.unwrap_or(start_tick);
+        if prev.last.is_some() && o.at <= prev_tick {
+            problem = Some(("same-tick".into(), format!("steps #{} and #{j} of one macro in the same millisecond (tick {})", j.saturating_sub(1), o.at)));
+            break;
+        }
+        let need = if prev.k == 0 && prev.runs > 0 { e.min_gap + trailing } else { e.min_gap };
+        if o.at < prev_tick + need as u64 {
+            problem = Some(("short-delay".into(), format!("step #{j} came {} ms after the previous one, the body asks for at least {}", o.at - prev_tick, need)));
+            break;
+        }
+        let mut open = prev.open.clone();
+        match o.kind {
+            SK::P => open.push(o.name.clone()),
+            SK::R => {
+                if let Some(p) = open.iter().rposition(|x| *x == o.name) {
+                    open.remove(p);
+                }
+            }
+            SK::U => {}
+        }
+        let mut run_starts = prev.run_starts.clone();
+        if prev.k == 0 {
+            run_starts.push(o.at);
+        }
+        let (runs, k) = if prev.k + 1 == n { (prev.runs + 1, 0) } else { (prev.runs, prev.k + 1) };
+        states.push(St { open, runs, k, run_starts, last: Some(o.at), used });
+    }
+    // longest head whose remainder is exactly the clean-up of its open keys
+    for j in (0..states.len()).rev() {
+        let st = &states[j];
+        let tail = &obs[j..];
+        let mut open = st.open.clone();
+        let mut ok = true;
+        for t in tail {
+            if t.kind != SK::R || st.last.map(|l| t.at < l).unwrap_or(false) {
+                ok = false;
+                break;
+            }
+            match open.iter().position(|x| *x == t.name) {
+                Some(p) => {
+                    open.remove(p);
+                }
+                None => {
+                    ok = false;
+                    break;
+                }
+            }
+        }
+        if ok && (tail.is_empty() || open.is_empty()) {
+            return Reading { head: j, runs: st.runs, k: st.k, tail: tail.len(), open, run_starts: st.run_starts.clone(), last_step_at: st.last, problem, unexplained: 0 };
+        }
+    }
+    // nothing explains the remainder: report the greedy head and its problem
+    let st = states.last().unwrap();
+    Reading { head: states.len() - 1, runs: st.runs, k: st.k, tail: 0, open: st.open.clone(), run_starts: st.run_starts.clone(), last_step_at: st.last, problem, unexplained: obs.len() - (states.len() - 1) }
+}
+
+fn strip_uni(e: &[XStep]) -> Vec<XStep> {
+    // a removed custom step hands its delay to the next step
+    let mut v: Vec<XStep> = vec![];
+    let mut carry = 0;
+    for s in e {
+        if s.kind == SK::U {
+            carry += s.min_gap;
+        } else {
+            let mut s = s.clone();
+            s.min_gap += carry;
+            carry = 0;
+            v.push(s);
+        }
+    }
+    v
+}
+
+fn run_bound(m: &Macro) -> u64 {
+    2 * (m.exp.steps.len() as u64 + m.exp.total_delay as u64) + 60
+}
+
+struct Judge<'a> {
+    out: &'a mut CaseOut,
+    cfg: &'a CaseCfg,
+    scenario: String,
+}
+
+impl<'a> Judge<'a> {
+    fn witness(&self, d: &Drv, m: &Macro, obs: &[Obs], exp: &[XStep], extra: Value) -> Value {
+        json!({
+            "config": self.cfg.text,
+            "scenario": self.scenario,
+            "history": render_hist(&d.hist),
+            "macro_key": m.trigger,
+            "variant": m.variant.name,
+            "observed": show_obs(obs),
+            "expected": show_exp(exp),
+            "os_model_at_end": d.sim.os.describe(),
+            "extra": extra,
+        })
+    }
+}
+
+/// What a scenario allows for one macro.
+struct Expect {
+    /// exact number of complete runs (None: any number >= min_runs)
+    runs_exact: Option<usize>,
+    min_runs: usize,
+    /// a cut (prefix of a run followed by the release of everything open) is legitimate
+    cut_ok: bool,
+    /// tick the cancelling event arrived at (for the "stops after cancellation" check)
+    cancel_at: Option<u64>,
+    /// tick the trigger was released at (repeat variants: no run may start later)
+    released_at: Option<u64>,
+    /// judged with the custom item
+    with_uni: bool,
+}
+
+const SLACK: u64 = 3;
+
+/// Judge one macro's projection. Returns a short class of what was seen ("full", "cut", "evicted"…).
+#[allow(clippy::too_many_arguments)]
+fn judge_macro(j: &mut Judge, d: &Drv, from: usize, start_tick: u64, m: &Macro, ex: &Expect, evict_ok: bool) -> &'static str {
+    // the cancelling variants put a custom action on the trigger key itself; its press/release
+    // shares the one-custom-event-per-tick slot with the body's custom item (the documented "may
+    // need delays" limitation), so the custom item is only judged for macro / macro-repeat
+    let with_uni = ex.with_uni && !m.variant.rc && !m.variant.cp;
+    let exp_steps: Vec<XStep> = if with_uni { m.exp.steps.clone() } else { strip_uni(&m.exp.steps) };
+    let obs = project(&d.sim, from, m, with_uni);
+    let r = read_projection(&obs, &exp_steps, m.exp.trailing_delay, start_tick);
+    j.out.count("steps_observed", obs.len() as u64);
+    let stuck: Vec<String> = d.sim.os.keys_down.iter().filter(|k| m.alphabet.contains(*k)).cloned().collect();
+    let extra = json!({"runs": r.runs, "partial_steps": r.k, "cleanup_releases": r.tail, "still_down": stuck, "cancel_at": ex.cancel_at, "released_at": ex.released_at});
+    let problem_or = |class: &str, what: String| -> (String, String) {
+        match &r.problem {
+            Some((c, w)) => (c.clone(), w.clone()),
+            None => (class.to_string(), what),
+        }
+    };
+    if r.unexplained > 0 {
+        let (class, what) = problem_or("order", "projection does not follow the body".into());
+        j.out.violate(format!("C08:{class}"), format!("{}: {what}", m.variant.name), j.witness(d, m, &obs, &exp_steps, extra));
+        return "bad";
+    }
+    // here: obs = head (r.runs complete runs + r.k steps) ++ tail (clean-up releases of all open keys)
+    let is_cut = r.k > 0 || r.tail > 0;
+    if evict_ok && r.tail == 0 && (r.k > 0 || r.runs == 0) {
+        // stopped without any clean-up while more than 4 macros were running
+        j.out.inc("evicted_macros");
+        j.out.violate(
+            "C08:evicted:concurrent-macros>4",
+            format!("a macro that was running when a 5th one started stopped after {} of {} steps; left down: [{}]", r.k, exp_steps.len(), r.open.join(",")),
+            j.witness(d, m, &obs, &exp_steps, extra),
+        );
+        return "evicted";
+    }
+    if is_cut && !ex.cut_ok {
+        let (class, what) = if r.tail == 0 && !r.open.is_empty() {
+            problem_or("stuck-key", format!("the macro stopped after {} of {} steps and left {} down", r.k, exp_steps.len(), r.open.join(",")))
+        } else {
+            problem_or("incomplete", format!("only {} of {} steps of a run were played although nothing cancelled it", r.k, exp_steps.len()))
+        };
+        j.out.violate(format!("C08:{class}"), format!("{}: {what}", m.variant.name), j.witness(d, m, &obs, &exp_steps, extra));
+        return "bad";
+    }
+    if is_cut && r.tail == 0 && !r.open.is_empty() {
+        j.out.violate("C08:not-released-after-cancel", format!("{}: cancelled after {} of {} steps but {} stayed down", m.variant.name, r.k, exp_steps.len(), r.open.join(",")), j.witness(d, m, &obs, &exp_steps, extra));
+        return "bad";
+    }
+    if !stuck.is_empty() {
+        j.out.violate("C08:stuck-key", format!("{}: {} still down at the end", m.variant.name, stuck.join(",")), j.witness(d, m, &obs, &exp_steps, extra));
+        return "bad";
+    }
+    if is_cut {
+        if let (Some(c), Some(l)) = (ex.cancel_at, r.last_step_at) {
+            if l > c + SLACK {
+                j.out.violate("C08:continued-after-cancel", format!("{}: a regular step at tick {l}, cancellation arrived at tick {c}", m.variant.name), j.witness(d, m, &obs, &exp_steps, extra));
+                return "bad";
+            }
+        }
+    }
+    match ex.runs_exact {
+        Some(n) => {
+            let ok = if is_cut { r.runs < n } else { r.runs == n || (ex.cut_ok && r.runs < n) };
+            if !ok {
+                j.out.violate(if r.runs + (is_cut as usize) > n { "C08:extra-run" } else { "C08:incomplete" }, format!("{}: {} complete runs{} observed, {} expected", m.variant.name, r.runs, if is_cut { " and a partial one" } else { "" }, n), j.witness(d, m, &obs, &exp_steps, extra));
+                return "bad";
+            }
+        }
+        None => {
+            if r.runs + (is_cut as usize) < ex.min_runs {
+                j.out.violate("C08:incomplete", format!("{}: {} runs observed, at least {} expected", m.variant.name, r.runs, ex.min_runs), j.witness(d, m, &obs, &exp_steps, extra));
+                return "bad";
+            }
+        }
+    }
+    if let Some(rel) = ex.released_at {
+        // a run may start only while the key is held
+        let lead = exp_steps.first().map(|e| e.min_gap as u64).unwrap_or(0);
+        for (i, s) in r.run_starts.iter().enumerate() {
+            // a run is started `lead` ms (its leading delay) before its first step shows
+            if i > 0 && *s > rel + SLACK + lead {
+                j.out.violate("C08:restart-after-release", format!("{}: run #{} started at tick {s}, the key was released at tick {rel}", m.variant.name, i + 1), j.witness(d, m, &obs, &exp_steps, extra));
+                return "bad";
+            }
+        }
+        j.out.count("repeat_runs", r.runs as u64);
+    }
+    if is_cut {
+        "cut"
+    } else {
+        "full"
+    }
+}
+
+/// number of regular key steps of `m` seen since trace index `from`
+fn steps_seen(sim: &Sim, from: usize, m: &Macro) -> usize {
+    sim.trace[from..].iter().filter(|o| !o.redundant && matches!(o.kind, OutKind::Down | OutKind::Up) && m.alphabet.contains(&o.name)).count()
+}
+
+fn quiesce(d: &mut Drv, bound: u64) -> bool {
+    // run until no macro is active and nothing was output for 12 ticks
+    let t0 = d.now();
+    let mut quiet = 0;
+    while d.now() - t0 < bound {
+        let n = d.sim.trace.len();
+        d.tick(1);
+        if d.sim.trace.len() > n || !d.sim.k.layout.b().active_sequences.is_empty() {
+            quiet = 0;
+        } else {
+            quiet += 1;
+        }
+        if quiet >= 12 {
+            return true;
+        }
+    }
+    false
+}
+
+fn shape_tag(m: &Macro) -> String {
+    fn sh(items: &[Item], s: &mut String) {
+        for it in items {
+            match it {
+                Item::Key(_) => s.push('k'),
+                Item::Delay(_) => s.push('d'),
+                Item::Chord(ms, _) => s.push_str(&format!("c{}", ms.len())),
+                Item::Group(ms, inner, sp) => {
+                    s.push_str(&format!("g{}{}(", ms.len(), if *sp { "s" } else { "" }));
+                    sh(inner, s);
+                    s.push(')');
+                }
+                Item::List(inner) => {
+                    s.push('(');
+                    sh(inner, s);
+                    s.push(')');
+                }
+                Item::Uni(_) => s.push('u'),
+            }
+        }
+    }
+    let mut s = String::new();
+    sh(&m.body, &mut s);
+    s
+}
+
+// ------------------------------------------------------------------------------------------------
+// scenario families
+
+fn typed_codes() -> Vec<u16> {
+    TYPED.iter().map(|t| osc(t)).collect()
+}
+
+/// press the trigger, optionally type unrelated keys meanwhile, hold or tap, let it finish; `times` activations
+fn scenario_single(out: &mut CaseOut, cfg: &CaseCfg, rng: &mut Rng, label: &str) {
+    let m = &cfg.macros[0];
+    let Ok(mut d) = Drv::new(&cfg.text) else {
+        out.inc("configs_rejected");
+        return;
+    };
+    let v = m.variant;
+    let typing = !v.cp && rng.coin();
+    let hold_through = v.rc || rng.coin();
+    let times = if v.repeat { 1 } else { 1 + rng.usize(2) };
+    let typed = typed_codes();
+    let from = d.sim.trace.len();
+    let start = d.now();
+    let mut released_at = None;
+    let mut typed_down: Vec<u16> = vec![];
+    for _ in 0..times {
+        d.press(m.code);
+        let bound = run_bound(m);
+        if !hold_through {
+            d.tick(rng.below(3));
+            d.release(m.code);
+            released_at = Some(d.now());
+        }
+        // let the run play, typing meanwhile
+        let t0 = d.now();
+        loop {
+            d.tick(1);
+            if typing && rng.chance(1, 3) {
+                if !typed_down.is_empty() && rng.coin() {
+                    let i = rng.usize(typed_down.len());
+                    let k = typed_down.remove(i);
+                    d.release(k);
+                } else {
+                    let k = *rng.pick(&typed);
+                    if !typed_down.contains(&k) {
+                        typed_down.push(k);
+                        d.press(k);
+                        out.inc("typed_meanwhile");
+                    }
+                }
+            }
+            let done = d.now() - t0 >= 3 && d.sim.k.layout.b().active_sequences.is_empty();
+            if v.repeat && hold_through {
+                // hold for a bounded time only
+                if d.now() - t0 >= bound / 2 {
+                    break;
+                }
+            } else if done || d.now() - t0 > bound {
+                break;
+            }
+        }
+        if hold_through {
+            d.release(m.code);
+            released_at = Some(d.now());
+        }
+        for k in typed_down.drain(..) {
+            d.release(k);
+        }
+        let q = quiesce(&mut d, bound + 40);
+        if !q {
+            let obs = project(&d.sim, from, m, true);
+            let j = Judge { out, cfg, scenario: label.to_string() };
+            let w = j.witness(&d, m, &obs, &m.exp.steps, json!({"bound": bound}));
+            out.violate("C08:never-finishes", format!("{}: still running {} ticks after everything was released", v.name, bound + 40), w);
+            return;
+        }
+    }
+    let ex = if v.repeat {
+        // a release-cancel repeat is cut by the release, a plain one completes its current run
+        Expect { runs_exact: None, min_runs: if v.rc { 0 } else { 1 }, cut_ok: v.rc, cancel_at: if v.rc { released_at } else { None }, released_at, with_uni: !v.rc }
+    } else if v.rc && !hold_through {
+        unreachable!()
+    } else {
+        Expect { runs_exact: Some(times), min_runs: times, cut_ok: false, cancel_at: None, released_at: None, with_uni: true }
+    };
+    let mut j = Judge { out, cfg, scenario: format!("{label}: {} activation(s), {}{}", times, if hold_through { "held" } else { "tapped" }, if typing { ", typing meanwhile" } else { "" }) };
+    let r = judge_macro(&mut j, &d, from, start, m, &ex, false);
+    out.inc(&format!("single_{r}"));
+    out.inc(&format!("variant_{}", v.name));
+    out.tag(format!("single|{}|{}|{}|{}", v.name, shape_tag(m), hold_through, typing));
+    if m.uni.is_some() {
+        out.inc("bodies_with_custom_item");
+    }
+}
+
+/// cancel at step index `i` (after `i` key steps were seen): by releasing the trigger or by pressing another key
+fn scenario_cancel(out: &mut CaseOut, cfg: &CaseCfg, rng: &mut Rng, i: usize, by_press: bool) {
+    let m = &cfg.macros[0];
+    let Ok(mut d) = Drv::new(&cfg.text) else {
+        out.inc("configs_rejected");
+        return;
+    };
+    let v = m.variant;
+    let x = osc(CANCEL_KEY);
+    let from = d.sim.trace.len();
+    let start = d.now();
+    d.press(m.code);
+    let bound = run_bound(m);
+    if by_press {
+        // the trigger is enabled while the macro is in progress: let the press be processed
+        d.tick(1);
+    } else if i == 0 {
+        d.tick(rng.below(2));
+    }
+    let t0 = d.now();
+    while steps_seen(&d.sim, from, m) < i && d.now() - t0 < bound {
+        d.tick(1);
+    }
+    let cancel_at = d.now();
+    let n_steps = strip_uni(&m.exp.steps).len();
+    // the cancelling press is only specified while the (first) run is in progress
+    let in_first_run = i < n_steps;
+    let cancels = if by_press { v.cp && in_first_run } else { v.rc };
+    let mut q1 = true;
+    let mut trigger_released_at = cancel_at;
+    if by_press {
+        d.press(x);
+        if v.repeat {
+            // the trigger stays held: whether or not the press cancelled, keep holding for a while
+            d.tick(rng.below(40));
+        } else {
+            q1 = quiesce(&mut d, bound + 40);
+        }
+        d.release(x);
+        d.release(m.code);
+        trigger_released_at = d.now();
+    } else {
+        d.release(m.code);
+    }
+    let q2 = quiesce(&mut d, bound + 40);
+    let label = format!("cancel at step {i} by {}", if by_press { "pressing another key" } else { "releasing the key" });
+    if !(q1 && q2) {
+        let obs = project(&d.sim, from, m, false);
+        let j = Judge { out, cfg, scenario: label.clone() };
+        let w = j.witness(&d, m, &obs, &m.exp.steps, json!({"bound": bound}));
+        out.violate("C08:never-finishes", format!("{}: still running long after the cancellation", v.name), w);
+        return;
+    }
+    let ex = if cancels {
+        // cut, or complete if the cancellation came too late; a repeating macro must not restart
+        Expect { runs_exact: if v.repeat { None } else { Some(1) }, min_runs: 0, cut_ok: true, cancel_at: Some(cancel_at), released_at: Some(cancel_at), with_uni: false }
+    } else if v.repeat {
+        // releasing a plain repeating macro: the current run completes, nothing restarts.
+        // (a press after the first run of a repeat-cancel-on-press macro is not specified: only the
+        // invariants are judged)
+        Expect { runs_exact: None, min_runs: if by_press { 0 } else { 1 }, cut_ok: by_press, cancel_at: None, released_at: Some(trigger_released_at), with_uni: false }
+    } else {
+        Expect { runs_exact: Some(1), min_runs: 1, cut_ok: by_press, cancel_at: None, released_at: None, with_uni: false }
+    };
+    let mut j = Judge { out, cfg, scenario: label };
+    let r = judge_macro(&mut j, &d, from, start, m, &ex, false);
+    out.inc(&format!("cancel_{r}"));
+    out.inc("cancel_points");
+    if cancels {
+        out.inc(if by_press { "cancel_by_press" } else { "cancel_by_release" });
+    } else {
+        out.inc("release_of_repeat");
+    }
+    out.max("cancel_index", i as u64);
+    out.tag(format!("cancel|{}|{}|{}|{}", v.name, by_press, i.min(20), r));
+}
+
+/// hold a repeating macro for a while, release at a random moment
+fn scenario_repeat(out: &mut CaseOut, cfg: &CaseCfg, rng: &mut Rng) {
+    let m = &cfg.macros[0];
+    let Ok(mut d) = Drv::new(&cfg.text) else {
+        out.inc("configs_rejected");
+        return;
+    };
+    let v = m.variant;
+    let from = d.sim.trace.len();
+    let start = d.now();
+    let one = m.exp.steps.len() as u64 + m.exp.total_delay as u64 + 2;
+    let mult = 2 + rng.below(4);
+    let hold = rng.range(1, one * mult);
+    let typing = !v.cp && rng.coin();
+    let typed = typed_codes();
+    d.press(m.code);
+    let mut typed_down: Vec<u16> = vec![];
+    for _ in 0..hold {
+        d.tick(1);
+        if typing && rng.chance(1, 5) {
+            if let Some(k) = typed_down.pop() {
+                d.release(k);
+            } else {
+                let k = *rng.pick(&typed);
+                typed_down.push(k);
+                d.press(k);
+            }
+        }
+    }
+    d.release(m.code);
+    let released_at = d.now();
+    for k in typed_down.drain(..) {
+        d.release(k);
+    }
+    let q = quiesce(&mut d, run_bound(m) + 40);
+    let label = format!("repeat held for {hold} ticks{}", if typing { ", typing meanwhile" } else { "" });
+    if !q {
+        let obs = project(&d.sim, from, m, true);
+        let j = Judge { out, cfg, scenario: label };
+        let w = j.witness(&d, m, &obs, &m.exp.steps, json!({}));
+        out.violate("C08:never-finishes", format!("{}: still running long after its key was released", v.name), w);
+        return;
+    }
+    let ex = Expect { runs_exact: None, min_runs: if v.rc { 0 } else { 1 }, cut_ok: v.rc, cancel_at: if v.rc { Some(released_at) } else { None }, released_at: Some(released_at), with_uni: !v.rc };
+    let mut j = Judge { out, cfg, scenario: label };
+    let r = judge_macro(&mut j, &d, from, start, m, &ex, false);
+    out.inc(&format!("repeat_{r}"));
+    out.inc("repeat_scenarios");
+    out.tag(format!("repeat|{}|{}|{}", v.name, shape_tag(m), (hold / one).min(6)));
+}
+
+/// several macros with disjoint alphabets started close together
+fn scenario_concurrent(out: &mut CaseOut, cfg: &CaseCfg, rng: &mut Rng, overflow: bool) {
+    let Ok(mut d) = Drv::new(&cfg.text) else {
+        out.inc("configs_rejected");
+        return;
+    };
+    let n = cfg.macros.len();
+    let from = d.sim.trace.len();
+    let start = d.now();
+    let mut order: Vec<usize> = (0..n).collect();
+    rng.shuffle(&mut order);
+    let gaps: &[u64] = if overflow { &[0, 1, 1, 2, 3] } else { &[0, 1, 2, 5, 9] };
+    let hold = rng.coin();
+    let mut max_active = 0usize;
+    let mut fifth_while_full = false;
+    let trigger_codes: Vec<u16> = cfg.macros.iter().map(|m| m.code).collect();
+    // tick one by one, noting whether a macro key press is about to be processed while 4 macros run
+    let watch = |d: &mut Drv, n: u64, fifth: &mut bool, max_active: &mut usize| {
+        for _ in 0..n {
+            {
+                let l = d.sim.k.layout.b();
+                if l.active_sequences.len() >= 4 {
+                    if let Some(kanata_keyberon::layout::Event::Press(_, c)) = l.queue.front().map(|q| q.event()) {
+                        if trigger_codes.contains(&c) {
+                            *fifth = true;
+                        }
+                    }
+                }
+            }
+            d.tick(1);
+            *max_active = (*max_active).max(d.sim.k.layout.b().active_sequences.len());
+        }
+    };
+    for (pos, &i) in order.iter().enumerate() {
+        let m = &cfg.macros[i];
+        d.press(m.code);
+        if !hold && !m.variant.repeat {
+            // tap: release right away or a little later
+            let g = rng.below(2);
+            watch(&mut d, g, &mut fifth_while_full, &mut max_active);
+            d.release(m.code);
+        }
+        if pos + 1 < n {
+            let g = *rng.pick(gaps);
+            watch(&mut d, g, &mut fifth_while_full, &mut max_active);
+        }
+    }
+    let bound: u64 = cfg.macros.iter().map(run_bound).sum::<u64>();
+    // repeating ones are held for a while
+    let any_repeat = cfg.macros.iter().any(|m| m.variant.repeat);
+    let t0 = d.now();
+    let hold_for = if any_repeat { rng.range(5, bound / 2 + 6) } else { 0 };
+    loop {
+        watch(&mut d, 1, &mut fifth_while_full, &mut max_active);
+        let idle = d.sim.k.layout.b().active_sequences.is_empty();
+        if (d.now() - t0 >= hold_for && (idle || any_repeat)) || d.now() - t0 > bound {
+            break;
+        }
+    }
+    let mut released_at = vec![None; n];
+    for &i in &order {
+        let m = &cfg.macros[i];
+        if hold || m.variant.repeat {
+            d.release(m.code);
+            // processed after whatever is queued in front of it
+            released_at[i] = Some(d.now() + d.sim.k.layout.b().queue.len() as u64);
+            d.tick(rng.below(2));
+        }
+    }
+    let q = quiesce(&mut d, bound + 40);
+    let label = format!("{} macros started in order {:?}{}", n, order.iter().map(|i| cfg.macros[*i].trigger).collect::<Vec<_>>(), if hold { ", keys held" } else { ", keys tapped" });
+    out.max("concurrent_macros", max_active as u64);
+    if overflow {
+        out.inc("overflow_scenarios");
+        if fifth_while_full {
+            out.inc("fifth_started_while_4_running");
+        }
+    } else {
+        out.inc("concurrent_scenarios");
+    }
+    if !q {
+        let m = &cfg.macros[0];
+        let obs = project(&d.sim, from, m, true);
+        let j = Judge { out, cfg, scenario: label };
+        let w = j.witness(&d, m, &obs, &m.exp.steps, json!({}));
+        out.violate("C08:never-finishes", "macros still running long after everything was released".to_string(), w);
+        return;
+    }
+    let mut classes = vec![];
+    for (pos, &i) in order.iter().enumerate() {
+        let m = &cfg.macros[i];
+        // eviction can only hit a macro that was among the oldest when a 5th one started
+        let evict_ok = overflow && n >= 5 && pos + 5 <= n && fifth_while_full;
+        let ex = if m.variant.repeat {
+            Expect { runs_exact: None, min_runs: 1, cut_ok: false, cancel_at: None, released_at: released_at[i], with_uni: true }
+        } else {
+            Expect { runs_exact: Some(1), min_runs: 1, cut_ok: false, cancel_at: None, released_at: None, with_uni: true }
+        };
+        let mut j = Judge { out, cfg, scenario: label.clone() };
+        let r = judge_macro(&mut j, &d, from, start, m, &ex, evict_ok);
+        out.inc(&format!("{}_{r}", if overflow { "overflow" } else { "concurrent" }));
+        classes.push(r);
+    }
+    out.tag(format!("{}|{}|{}|{:?}", if overflow { "overflow" } else { "concurrent" }, n, max_active, classes));
+}
+
+/// several macros running, one of them release-cancel: its release cancels all of them
+fn scenario_concurrent_cancel(out: &mut CaseOut, cfg: &CaseCfg, rng: &mut Rng) {
+    // re-render macro 0 as release-cancel
+    let n = cfg.macros.len();
+    let mut src = vec![];
+    let mut lay = vec![];
+    for (i, m) in cfg.macros.iter().enumerate() {
+        src.push(m.trigger.to_string());
+        lay.push(format!("({} {})", if i == 0 { "macro-release-cancel" } else { "macro" }, render_items(&m.body)));
+    }
+    let text = format!("(defsrc {})\n(deflayer l0\n  {}\n)\n", src.join(" "), lay.join("\n  "));
+    let Ok(mut d) = Drv::new(&text) else {
+        out.inc("configs_rejected");
+        return;
+    };
+    let cfg2 = CaseCfg { family: cfg.family, macros: vec![], text };
+    let from = d.sim.trace.len();
+    let start = d.now();
+    let mut order: Vec<usize> = (0..n).collect();
+    rng.shuffle(&mut order);
+    for &i in &order {
+        d.press(cfg.macros[i].code);
+        d.tick(rng.below(4));
+    }
+    let total: u64 = cfg.macros.iter().map(|m| m.exp.steps.len() as u64 + m.exp.total_delay as u64).max().unwrap_or(1);
+    d.tick(rng.below(total + 2));
+    d.release(cfg.macros[0].code);
+    // the release is processed after whatever is still queued in front of it
+    let cancel_at = d.now() + d.sim.k.layout.b().queue.len() as u64;
+    let bound: u64 = cfg.macros.iter().map(run_bound).sum::<u64>();
+    let q1 = quiesce(&mut d, bound);
+    for &i in &order {
+        if i != 0 {
+            d.release(cfg.macros[i].code);
+        }
+    }
+    let q2 = quiesce(&mut d, bound);
+    let label = format!("{n} macros, {} is release-cancel and released at tick {cancel_at}", cfg.macros[0].trigger);
+    out.inc("concurrent_cancel_scenarios");
+    if !(q1 && q2) {
+        let m = &cfg.macros[0];
+        let obs = project(&d.sim, from, m, false);
+        let j = Judge { out, cfg: &cfg2, scenario: label };
+        let w = j.witness(&d, m, &obs, &m.exp.steps, json!({}));
+        out.violate("C08:never-finishes", "macros still running long after the cancellation".to_string(), w);
+        return;
+    }
+    for &i in &order {
+        let m = &cfg.macros[i];
+        let ex = Expect { runs_exact: Some(1), min_runs: 0, cut_ok: true, cancel_at: Some(cancel_at), released_at: None, with_uni: false };
+        let mut j = Judge { out, cfg: &cfg2, scenario: label.clone() };
+        let r = judge_macro(&mut j, &d, from, start, m, &ex, false);
+        out.inc(&format!("concurrent_cancel_{r}"));
+    }
+}
 
 impl Check for C08Check {
     fn id(&self) -> &'static str {
         "C08"
     }
-    fn n_cases(&self, _ctx: &Ctx) -> u64 {
-        0
+    fn n_cases(&self, ctx: &Ctx) -> u64 {
+        ctx.tier.sel(10_000, 300_000)
     }
-    fn run_case(&self, _ctx: &Ctx, _idx: u64) -> CaseOut {
-        CaseOut::new()
+    fn describe(&self, ctx: &Ctx, idx: u64) -> Value {
+        let c = make_cfg(ctx, idx);
+        json!({"config": c.text, "family": format!("{:?}", c.family)})
+    }
+    fn run_case(&self, ctx: &Ctx, idx: u64) -> CaseOut {
+        let mut out = CaseOut::new();
+        let cfg = make_cfg(ctx, idx);
+        let mut rng = Rng::for_case(ctx.seed, "C08", "hist", idx);
+        if ctx.verbose {
+            eprintln!("family {:?}\n{}", cfg.family, cfg.text);
+            for m in &cfg.macros {
+                eprintln!("  {} expands to {:?} (+{} trailing)", m.trigger, show_exp(&m.exp.steps), m.exp.trailing_delay);
+            }
+        }
+        if Sim::new(&cfg.text).is_err() {
+            out.inc("configs_rejected");
+            if ctx.verbose {
+                eprintln!("rejected: {:?}", Sim::new(&cfg.text).err());
+            }
+            return out;
+        }
+        out.inc("configs");
+        out.count("bodies", cfg.macros.len() as u64);
+        out.max("body_steps", cfg.macros.iter().map(|m| m.exp.steps.len()).max().unwrap_or(0) as u64);
+        match cfg.family {
+            Family::Single => {
+                scenario_single(&mut out, &cfg, &mut rng, "single");
+                scenario_single(&mut out, &cfg, &mut rng, "single");
+            }
+            Family::Cancel => {
+                let v = cfg.macros[0].variant;
+                let n = strip_uni(&cfg.macros[0].exp.steps).len();
+                for i in 0..=n {
+                    if v.rc || v.repeat {
+                        scenario_cancel(&mut out, &cfg, &mut rng, i, false);
+                    }
+                    if v.cp {
+                        scenario_cancel(&mut out, &cfg, &mut rng, i, true);
+                    }
+                }
+            }
+            Family::Repeat => {
+                for _ in 0..3 {
+                    scenario_repeat(&mut out, &cfg, &mut rng);
+                }
+            }
+            Family::Concurrent => {
+                scenario_concurrent(&mut out, &cfg, &mut rng, false);
+                scenario_concurrent(&mut out, &cfg, &mut rng, false);
+                if cfg.macros.iter().all(|m| !m.variant.repeat) {
+                    scenario_concurrent_cancel(&mut out, &cfg, &mut rng);
+                }
+            }
+            Family::Overflow => {
+                scenario_concurrent(&mut out, &cfg, &mut rng, true);
+                scenario_concurrent(&mut out, &cfg, &mut rng, true);
+            }
+        }
+        if idx % 400 < 10 && idx / 400 < 2 {
+            let m = &cfg.macros[0];
+            out.sample = Some(json!({"idx": idx, "family": format!("{:?}", cfg.family), "config": cfg.text, "expected_steps_of_first_macro": show_exp(&m.exp.steps)}));
+        }
+        out
     }
     fn rule(&self) -> String {
-        "not implemented".into()
+        "case = one configuration with 1-8 macro keys whose bodies come from the harness's own macro grammar (keys, delays, modifier groups S-(…) incl. the 'S- (…)' spelling, output chords, nested lists to depth 3, at most one (unicode x) item; every macro has a private key alphabet, a key is never pressed while the same macro already holds it) rendered in one of the 8 macro variants. Families by case index: single (30%: 1-2 activations, held or tapped, with or without unrelated typing), cancel (30%: for EVERY step index i of the body a fresh run is cancelled after i steps - by releasing the key for release-cancel/repeat variants, by pressing another key for cancel-on-press variants), repeat (10%: held for a random time), concurrent (20%: 2-4 macros started 0-9 ms apart, plus one run where a release-cancel macro cancels all), overflow (10%: 5-8 macros started 0-3 ms apart). The projection of the OS stream onto each macro's alphabet must read as: complete runs of the independently expanded body, optionally one partial run followed by the release of exactly the keys it still held (only where a cancellation was issued), with strictly increasing ticks, at least the written delays, nothing regular later than 3 ticks after a cancellation, no run of a repeating macro starting later than 3 ticks after the key's release, nothing of the alphabet down at the end, finished within 2x(steps+delays)+100 ticks. Non-trivial = a scenario whose macro produced output; distinct = (family, variant, body shape, hold/tap/typing or cancel index or concurrency and outcome).".into()
     }
     fn assumptions(&self) -> Vec<String> {
-        vec![]
+        vec![
+            "a macro never presses a key it already holds (nested identical modifiers are not generated: the OS stream cannot show the inner press)".into(),
+            "only one macro per configuration carries a custom item and repeating bodies with one end in a delay of 5, because the guide documents that neighbouring custom items need delays; in cancelled runs the custom item is not judged".into(),
+            "keys typed meanwhile and the cancelling key are outside every macro alphabet; the same macro is not re-activated while it is still running".into(),
+            "cancel-on-press is exercised while the first run is in progress (the guide: 'the trigger is enabled while the macro is in progress'); the cancelling press is sent at least 1 ms after the macro key".into(),
+            "more than 4 concurrent macros: the documented limit evicts the oldest running macro; that is reported under its own known-finding signature, any other deviation in those scenarios stays live".into(),
+        ]
+    }
+    fn floors(&self, ctx: &Ctx) -> Vec<(&'static str, u64)> {
+        let s = ctx.tier.sel(1, 20);
+        vec![
+            ("bodies", 10_000 * s),
+            ("single_full", 2_500 * s),
+            ("cancel_points", 20_000 * s),
+            ("cancel_cut", 10_000 * s),
+            ("cancel_by_press", 7_000 * s),
+            ("cancel_by_release", 8_000 * s),
+            ("release_of_repeat", 4_000 * s),
+            ("repeat_runs", 20_000 * s),
+            ("concurrent_full", 5_000 * s),
+            ("concurrent_cancel_cut", 300 * s),
+            ("overflow_full", 3_000 * s),
+            ("fifth_started_while_4_running", 1_000 * s),
+            ("bodies_with_custom_item", 1_500 * s),
+            ("typed_meanwhile", 5_000 * s),
+        ]
     }
 }
